@@ -235,6 +235,7 @@ func TestC14GapMatrix(t *testing.T) {
 		nDev := rapid.IntRange(0, 3).Draw(t, "devices")
 		withWeek := rapid.Bool().Draw(t, "archivedWeek")
 		nRep := rapid.IntRange(0, 6).Draw(t, "reports")
+		bannedSlot := rapid.Bool().Draw(t, "bannedSlot") // a second, different report for a slot that has one: the week then holds the ban sentinel
 		for _, point := range c14Points {
 			for _, burst := range c14Bursts() {
 				temp, gca := keyFor("temp"), keyFor("gca")
@@ -272,6 +273,9 @@ func TestC14GapMatrix(t *testing.T) {
 							c14Bursts()[4].run(S, st)
 						}
 					}
+					if nDev > 0 && bannedSlot {
+						S.SendUDP(ref.SignedReport(keyFor("c14-dev-1"), 1001, 100, 51).Encode())
+					}
 					if withWeek {
 						c14Bursts()[2].run(S, st)
 						glow.SetCurrentTimeslot(S.VerifSnapshot().Offset + 100)
@@ -287,7 +291,7 @@ func TestC14GapMatrix(t *testing.T) {
 						burstErr = burst.run(S, st)
 					})
 				})
-				desc := fmt.Sprintf("registered=%v devices=%d week=%v reports=%d | gap %s | burst %s", registered, nDev, withWeek, nRep, strings.TrimPrefix(point, "yield:archive:before:"), burst.name)
+				desc := fmt.Sprintf("registered=%v devices=%d week=%v reports=%d bannedSlot=%v | gap %s | burst %s", registered, nDev, withWeek, nRep, bannedSlot, strings.TrimPrefix(point, "yield:archive:before:"), burst.name)
 				lastCase(desc)
 				code, body, err := getArchive(S)
 				server.VerifOn(point, nil)
